@@ -188,6 +188,60 @@ def _exact_log(x):
     raise HarnessError(f"log of {type(x).__name__}")
 
 
+def _exact_exp(x):
+    if isinstance(x, LogVal):
+        return x.exp()
+    if isinstance(x, np.ndarray) and x.dtype == object:
+        out = np.empty(x.shape, dtype=object)
+        for idx in np.ndindex(x.shape):
+            v = x[idx]
+            out[idx] = v.exp() if isinstance(v, (LogVal, SymReal)) else (1.0 if v == 0 else np.exp(v))
+        return out.view(SymArray) if x.ndim else out.item()
+    return np.exp(x)
+
+
+class _LogAddExp:
+    """np.logaddexp has no object loop; this is log(exp(a)+exp(b)) on log-domain scalars,
+    falling through to numpy for plain float input."""
+
+    @staticmethod
+    def _pair(a, b):
+        if isinstance(a, LogVal):
+            return a.logaddexp(b)
+        if isinstance(b, LogVal):
+            return b.logaddexp(a)
+        return np.logaddexp(a, b)
+
+    def __call__(self, a, b):
+        if isinstance(a, np.ndarray) or isinstance(b, np.ndarray):
+            a_b, b_b = np.broadcast_arrays(np.asarray(a, dtype=object), np.asarray(b, dtype=object))
+            out = np.empty(a_b.shape, dtype=object)
+            for idx in np.ndindex(a_b.shape):
+                out[idx] = self._pair(a_b[idx], b_b[idx])
+            return out.view(SymArray)
+        return self._pair(a, b)
+
+    def reduce(self, arr, axis=0):
+        arr = np.asarray(arr)
+        if arr.dtype != object:
+            return np.logaddexp.reduce(arr, axis=axis)
+        if arr.ndim == 1:
+            if arr.size == 0:
+                return -np.inf
+            acc = arr[0]
+            for v in arr[1:]:
+                acc = self._pair(acc, v)
+            return acc
+        moved = np.moveaxis(arr, axis, -1)
+        out = np.empty(moved.shape[:-1], dtype=object)
+        for idx in np.ndindex(moved.shape[:-1]):
+            out[idx] = self.reduce(moved[idx])
+        return out.view(SymArray)
+
+
+LOGADDEXP = _LogAddExp()
+
+
 class NpProxy:
     """Stands in for the module-global `np` of one tempest module. Attribute access falls
     through to real numpy; the overrides are the trusted models listed in the evidence."""
@@ -211,6 +265,10 @@ class NpProxy:
         if name == "log" and self._exact_log:
             self.used["log"] = self.used.get("log", 0) + 1
             return _exact_log
+        if name == "logaddexp" and self._exact_log:
+            return LOGADDEXP
+        if name == "exp" and self._exact_log:
+            return _exact_exp
         if self._objc and name in ("ones", "zeros", "empty", "full", "eye", "ones_like", "zeros_like"):
             return getattr(self, "_c_" + name)
         return getattr(np, name)
